@@ -8,6 +8,8 @@ def main(argv):
     rep = vlib.Report(PID, 'model_checking', argv)
     vlib.build_harness()
     pp.run(rep, PID, common.pipeline_cfgs(rep, 'values'))
+    # a source that ends with Error(nil): a legal terminal that every operator must treat as an error
+    pp.run(rep, PID, [pp.gen_cfg('single-nil-error', MaxSteps=3, NilErr='TRUE')], modes='ctl-unsafe,sync')
     # creation operators as functions of their parameters (Creation.tla), alone, behind Take(n), subscribed twice
     parts_creation.run(rep, PID, rep.tier == 'thorough')
     # the reflective and the typed composition forms, every arity 1..25
